@@ -201,6 +201,11 @@ struct World {
     errors: Vec<String>,
     max_value_size: usize,
     lines: Vec<String>,
+    /// master password and configuration, kept to re-open the vault over the same store and graph
+    pw: Vec<u8>,
+    cfg: VaultConfig,
+    /// wrapping tokens handed out so far (index = the model's token number)
+    tokens: Vec<String>,
 }
 
 impl World {
@@ -222,7 +227,7 @@ impl World {
             ..VaultConfig::default()
         };
         let pw = r.bytes(24);
-        let vault = Vault::new(&pw, graph.clone(), vstore.clone(), cfg).expect("vault construction");
+        let vault = Vault::new(&pw, graph.clone(), vstore.clone(), cfg.clone()).expect("vault construction");
         let mut idents = vec![ROOT.to_string()];
         for i in 0..n_users {
             idents.push(format!("user:{}{}", rand_utf8(r, 3, true), i));
@@ -277,6 +282,9 @@ impl World {
             errors: Vec::new(),
             max_value_size,
             lines: vec![line],
+            pw,
+            cfg,
+            tokens: Vec::new(),
         }
     }
 
@@ -286,13 +294,17 @@ impl World {
 
     /// wait until no pending expiry window is near; returns the time to stamp the next op with
     fn clear_time(&self) -> u64 {
+        self.clear_time_guard(PRE_GUARD, POST_GUARD)
+    }
+
+    fn clear_time_guard(&self, pre: u64, post: u64) -> u64 {
         loop {
             let now = self.now();
             let mut until = 0u64;
             for g in &self.grants {
                 if let Some((lo, hi)) = g.expiry {
-                    if now + PRE_GUARD >= lo && now <= hi + POST_GUARD {
-                        until = until.max(hi + POST_GUARD + 50);
+                    if now + pre >= lo && now <= hi + post {
+                        until = until.max(hi + post + 50);
                     }
                 }
             }
@@ -450,6 +462,27 @@ impl World {
         );
     }
 
+    /// bookkeeping + oracle after a successful write of `sec` by `req` (set / batch entry / rollback)
+    fn after_write_ok(&mut self, rep: &mut Report, op: &str, req: usize, sec: usize, existed: bool, t0: u64, line: &str) {
+        if existed {
+            self.check_access(rep, op, req, sec, 2, t0, line);
+        } else {
+            if req != 0 {
+                rep.violation(&format!("tensor_vault.{op}/non_root_created_secret"), "a non-root requester created a new secret", json!({"line": line}));
+            }
+            self.sec_exists[sec] = true;
+            self.discover_sec_node(sec);
+            self.grants.push(Grant { ent: 0, sec, level: 3, expiry: None, alive: true, deleg: None });
+        }
+    }
+
+    fn value_tag(&self, v: &str) -> String {
+        match self.value_id.get(v) {
+            Some(id) => format!("v{id}"),
+            None => "v?".to_string(),
+        }
+    }
+
     // ---------------- leak scan
 
     fn scan_store(&self, store: &TensorStore, which: &str, rep: &mut Report, seen: &mut BTreeSet<String>) {
@@ -593,7 +626,7 @@ impl World {
 enum Op {
     Set { req: usize, sec: usize, big: bool },
     Get { req: usize, sec: usize },
-    List { req: usize, pat: u8, arg: usize }, // 0 all, 1 ns, 2 one, 3 empty pattern
+    List { req: usize, pat: u8, arg: usize, via: u8 }, // pat: 0 all, 1 ns, 2 one, 3 empty pattern; via: 0 list, 1 list_paginated, 2 list_with_metadata
     Rotate { req: usize, sec: usize, big: bool },
     Delete { req: usize, sec: usize },
     Grant { req: usize, ent: usize, sec: usize, level: u8, plain_api: bool },
@@ -603,6 +636,20 @@ enum Op {
     Undelegate { parent: usize, child: usize },
     AddMember { a: usize, b: Nd },
     DelMember { a: usize, b: Nd },
+    GetVersion { req: usize, sec: usize, ver: u32 },
+    /// `current_version` (via_list: `list_versions().len()`)
+    Versions { req: usize, sec: usize, via_list: bool },
+    Rollback { req: usize, sec: usize, ver: u32 },
+    BatchGet { req: usize, secs: Vec<usize> },
+    /// `batch_set_detailed`; a single entry with `plain_api` goes through `batch_set`
+    BatchSet { req: usize, secs: Vec<usize>, big: Vec<bool>, plain_api: bool },
+    Wrap { req: usize, sec: usize },
+    Unwrap { tok: usize },
+    UndelegateCascade { parent: usize, child: usize },
+    /// drop the Vault object and `Vault::new` over the same store and graph
+    Reopen,
+    /// a value of exactly `bytes` bytes through set (rotate = false) or rotate
+    SetExact { req: usize, sec: usize, bytes: usize, rotate: bool },
     /// raw graph edge of an arbitrary type (classified by the MODEL from the type string)
     RawEdge { a: usize, b: Nd, ty: &'static str, cap: u64, sig: u8, undirected: bool },
     Sleep { ms: u64 },
@@ -635,6 +682,7 @@ fn exec(w: &mut World, m: &mut Model, rep: &mut Report, r: &mut Rng, stream: &st
             let t1 = w.now();
             if w.ambiguous($t0, t1) {
                 rep.hit("history.aborted_time_ambiguous");
+                rep.hit(&format!("history.aborted_time_ambiguous.{}.{}ms", $tag, (t1 - $t0) / 1000));
                 return false;
             }
             let line: String = $line;
@@ -663,16 +711,7 @@ fn exec(w: &mut World, m: &mut Model, rep: &mut Report, r: &mut Rng, stream: &st
             let line = format!("set {t0} {req} {} {vid} {}", w.sec_ids[*sec], val.len());
             let imp = finish!("set", line.clone(), imp, t0);
             if imp == "ok" {
-                if existed {
-                    w.check_access(rep, "set", *req, *sec, 2, t0, &line);
-                } else {
-                    if *req != 0 {
-                        rep.violation("tensor_vault.set/non_root_created_secret", "a non-root requester created a new secret", json!({"line": line}));
-                    }
-                    w.sec_exists[*sec] = true;
-                    w.discover_sec_node(*sec);
-                    w.grants.push(Grant { ent: 0, sec: *sec, level: 3, expiry: None, alive: true, deleg: None });
-                }
+                w.after_write_ok(rep, "set", *req, *sec, existed, t0, &line);
             }
         }
         Op::Get { req, sec } => {
@@ -689,7 +728,7 @@ fn exec(w: &mut World, m: &mut Model, rep: &mut Report, r: &mut Rng, stream: &st
                 w.check_access(rep, "get", *req, *sec, 1, t0, &line);
             }
         }
-        Op::List { req, pat, arg } => {
+        Op::List { req, pat, arg, via } => {
             let t0 = w.clear_time();
             let (pattern, mp) = match pat {
                 0 => ("*".to_string(), "all".to_string()),
@@ -704,7 +743,13 @@ fn exec(w: &mut World, m: &mut Model, rep: &mut Report, r: &mut Rng, stream: &st
                 }
                 _ => (w.sec_names[*arg].clone(), format!("one:{}", w.sec_ids[*arg])),
             };
-            let out = w.vault.list(&w.idents[*req].clone(), &pattern);
+            let rq = w.idents[*req].clone();
+            rep.hit(&format!("list.via{via}"));
+            let out = match via {
+                1 => w.vault.list_paginated(&rq, &pattern, 0, 0).map(|p| p.secrets),
+                2 => w.vault.list_with_metadata(&rq, &pattern).map(|v| v.into_iter().map(|x| x.key).collect()),
+                _ => w.vault.list(&rq, &pattern),
+            };
             let mut listed: Vec<usize> = Vec::new();
             let out = out.map(|names| {
                 let mut ids: Vec<u64> = Vec::new();
@@ -889,6 +934,238 @@ fn exec(w: &mut World, m: &mut Model, rep: &mut Report, r: &mut Rng, stream: &st
                 Err(e) => rep.note(&format!("create_edge MEMBER failed: {e}")),
             }
         }
+        Op::GetVersion { req, sec, ver } => {
+            let t0 = w.clear_time();
+            let out = w.vault.get_version(&w.idents[*req].clone(), &w.sec_names[*sec].clone(), *ver);
+            let out = out.map(|v| format!("ok {}", w.value_tag(&v)));
+            let imp = res(w, out);
+            let line = format!("getver {t0} {req} {} {ver}", w.sec_ids[*sec]);
+            let imp = finish!("getver", line.clone(), imp, t0);
+            if imp.starts_with("ok") {
+                w.check_access(rep, "get_version", *req, *sec, 1, t0, &line);
+            }
+        }
+        Op::Versions { req, sec, via_list } => {
+            let t0 = w.clear_time();
+            let (rq, sn) = (w.idents[*req].clone(), w.sec_names[*sec].clone());
+            let out = if *via_list { w.vault.list_versions(&rq, &sn).map(|v| v.len() as u32) } else { w.vault.current_version(&rq, &sn) };
+            let imp = res(w, out.map(|n| format!("ok n{n}")));
+            let line = format!("vercount {t0} {req} {}", w.sec_ids[*sec]);
+            let imp = finish!("vercount", line.clone(), imp, t0);
+            if imp.starts_with("ok") {
+                w.check_access(rep, if *via_list { "list_versions" } else { "current_version" }, *req, *sec, 1, t0, &line);
+            }
+        }
+        Op::Rollback { req, sec, ver } => {
+            let t0 = w.clear_time();
+            let out = w.vault.rollback(&w.idents[*req].clone(), &w.sec_names[*sec].clone(), *ver).map(|()| "ok".to_string());
+            let imp = res(w, out);
+            let line = format!("rollback {t0} {req} {} {ver}", w.sec_ids[*sec]);
+            let imp = finish!("rollback", line.clone(), imp, t0);
+            if imp == "ok" {
+                w.check_access(rep, "rollback", *req, *sec, 2, t0, &line);
+            }
+        }
+        Op::BatchGet { req, secs } => {
+            let t0 = w.clear_time();
+            let names: Vec<String> = secs.iter().map(|s| w.sec_names[*s].clone()).collect();
+            let refs: Vec<&str> = names.iter().map(String::as_str).collect();
+            let out = w.vault.batch_get(&w.idents[*req].clone(), &refs);
+            let mut got: Vec<usize> = Vec::new();
+            let mut errs: Vec<String> = Vec::new();
+            let out = out.map(|results| {
+                let mut items: Vec<String> = Vec::new();
+                for (i, (k, r1)) in results.iter().enumerate() {
+                    if names.get(i) != Some(k) {
+                        items.push("key_mismatch".to_string());
+                        continue;
+                    }
+                    match r1 {
+                        Ok(v) => {
+                            got.push(secs[i]);
+                            items.push(w.value_tag(v));
+                        }
+                        Err(e) => {
+                            errs.push(e.to_string());
+                            items.push(format!("e:{}", err_kind(e)));
+                        }
+                    }
+                }
+                format!("ok {}", if items.is_empty() { "-".to_string() } else { items.join(",") })
+            });
+            w.errors.extend(errs);
+            let imp = res(w, out);
+            let line = format!("batchget {t0} {req} {}", if secs.is_empty() { "-".to_string() } else { secs.iter().map(|s| w.sec_ids[*s].to_string()).collect::<Vec<_>>().join(",") });
+            let _ = finish!("batchget", line.clone(), imp, t0);
+            for sx in got {
+                rep.hit("batchget.entry_ok");
+                w.check_access(rep, "batch_get", *req, sx, 1, t0, &line);
+            }
+        }
+        Op::BatchSet { req, secs, big, plain_api } => {
+            let mut vals: Vec<(usize, String)> = Vec::new();
+            for b in big {
+                vals.push(w.new_value(r, *b));
+            }
+            let t0 = w.clear_time();
+            let names: Vec<String> = secs.iter().map(|s| w.sec_names[*s].clone()).collect();
+            let entries: Vec<(&str, &str)> = names.iter().zip(vals.iter()).map(|(n, v)| (n.as_str(), v.1.as_str())).collect();
+            let existed: Vec<bool> = secs.iter().map(|s| w.sec_exists[*s]).collect();
+            let rq = w.idents[*req].clone();
+            let mut errs: Vec<String> = Vec::new();
+            let imp = if *plain_api && entries.len() == 1 {
+                rep.hit("batchset.via_batch_set");
+                match w.vault.batch_set(&rq, &entries) {
+                    Ok(()) => "ok d".to_string(),
+                    Err(e) => {
+                        errs.push(e.to_string());
+                        format!("ok e:{}", err_kind(&e))
+                    }
+                }
+            } else {
+                match w.vault.batch_set_detailed(&rq, &entries) {
+                    Ok(resu) => {
+                        let mut items: Vec<String> = names.iter().map(|_| "d".to_string()).collect();
+                        for (k, e) in &resu.failed {
+                            errs.push(e.to_string());
+                            if let Some(i) = names.iter().position(|n| n == k) {
+                                items[i] = format!("e:{}", err_kind(e));
+                            }
+                        }
+                        if resu.succeeded != items.iter().filter(|x| *x == "d").count() {
+                            items.push("succeeded_count_mismatch".to_string());
+                        }
+                        format!("ok {}", if items.is_empty() { "-".to_string() } else { items.join(",") })
+                    }
+                    Err(e) => {
+                        errs.push(e.to_string());
+                        format!("err {}", err_kind(&e))
+                    }
+                }
+            };
+            w.errors.extend(errs);
+            let line = format!(
+                "batchset {t0} {req} {}",
+                if secs.is_empty() { "-".to_string() } else { secs.iter().zip(vals.iter()).map(|(s, v)| format!("{}:{}:{}", w.sec_ids[*s], v.0, v.1.len())).collect::<Vec<_>>().join(",") }
+            );
+            let imp = finish!("batchset", line.clone(), imp, t0);
+            if let Some(rest) = imp.strip_prefix("ok ") {
+                for (i, it) in rest.split(',').enumerate() {
+                    if it == "d" && i < secs.len() {
+                        rep.hit("batchset.entry_ok");
+                        w.after_write_ok(rep, "batch_set", *req, secs[i], existed[i], t0, &line);
+                    }
+                }
+            }
+        }
+        Op::Wrap { req, sec } => {
+            let t0 = w.clear_time();
+            let out = w.vault.wrap_secret(&w.idents[*req].clone(), &w.sec_names[*sec].clone(), 600_000);
+            let mut tok = None;
+            let out = out.map(|t| {
+                tok = Some(t);
+                "ok".to_string()
+            });
+            let imp = res(w, out);
+            let line = format!("wrap {t0} {req} {}", w.sec_ids[*sec]);
+            let imp = finish!("wrap", line.clone(), imp, t0);
+            if imp == "ok" {
+                w.check_access(rep, "wrap_secret", *req, *sec, 1, t0, &line);
+            }
+            // keep the numbering in step with the model even if the comparison failed
+            if let Some(t) = tok {
+                w.tokens.push(t);
+            }
+        }
+        Op::Unwrap { tok } => {
+            let t0 = w.clear_time();
+            let token = w.tokens.get(*tok).cloned().unwrap_or_else(|| "00".repeat(32));
+            let out = w.vault.unwrap_secret(&token).map(|v| format!("ok {}", w.value_tag(&v)));
+            let imp = res(w, out);
+            let line = format!("unwrap {tok}");
+            let _ = finish!("unwrap", line, imp, t0);
+        }
+        Op::UndelegateCascade { parent, child } => {
+            let t0 = w.clear_time();
+            let out = w.vault.revoke_delegation_cascading(&w.idents[*parent].clone(), &w.idents[*child].clone());
+            let mut revoked: Vec<(usize, usize, Vec<usize>)> = Vec::new();
+            let out = out.map(|recs| {
+                let mut pairs: Vec<(usize, usize)> = Vec::new();
+                for rec in &recs {
+                    let p = w.idents.iter().position(|x| *x == rec.parent).unwrap_or(999_999);
+                    let c = w.idents.iter().position(|x| *x == rec.child).unwrap_or(999_999);
+                    pairs.push((p, c));
+                    revoked.push((p, c, rec.secrets.iter().filter_map(|n| w.sec_names.iter().position(|x| x == n)).collect()));
+                }
+                pairs.sort_unstable();
+                format!("ok {}", if pairs.is_empty() { "-".to_string() } else { pairs.iter().map(|(p, c)| format!("{p}>{c}")).collect::<Vec<_>>().join(",") })
+            });
+            let imp = res(w, out);
+            let line = format!("undelegatec {t0} {parent} {child}");
+            let imp = finish!("undelegatec", line, imp, t0);
+            if imp.starts_with("ok") {
+                rep.hit_n("undelegatec.records_revoked", revoked.len() as u64);
+                for (p, c, secs) in revoked {
+                    w.delegs.retain(|(pp, cc, _)| !(*pp == p && *cc == c));
+                    for g in w.grants.iter_mut().filter(|g| g.deleg == Some((p, c)) && secs.contains(&g.sec)) {
+                        g.alive = false;
+                        g.expiry = None;
+                    }
+                }
+            }
+        }
+        Op::Reopen => {
+            // not within 8 ms before / 3.5 ms after a pending expiry: the persisted tracker keeps unix MILLISECONDS
+            let t0 = w.clear_time_guard(8000, 3500);
+            let out = Vault::new(&w.pw, w.graph.clone(), w.vstore.clone(), w.cfg.clone());
+            let imp = match out {
+                Ok(v) => {
+                    w.vault = v;
+                    "ok".to_string()
+                }
+                Err(e) => {
+                    w.errors.push(e.to_string());
+                    format!("err {}", err_kind(&e))
+                }
+            };
+            // every still-pending expiry may have moved by a rounding step (to-millisecond truncation at persist and
+            // at load); expiries that passed more than 3 ms ago cannot come back
+            for g in w.grants.iter_mut() {
+                if let Some((lo, hi)) = g.expiry {
+                    if hi + 3000 > t0 {
+                        g.expiry = Some((lo.saturating_sub(2500), hi + 2500));
+                    }
+                }
+            }
+            let line = format!("reopen {t0}");
+            let _ = finish!("reopen", line, imp, t0);
+        }
+        Op::SetExact { req, sec, bytes, rotate } => {
+            let id = w.values.len();
+            let mut val = format!("#{id}#");
+            while val.len() < *bytes {
+                val.push((b'a' + (val.len() % 26) as u8) as char);
+            }
+            val.truncate(*bytes);
+            w.values.push(val.clone());
+            w.value_id.insert(val.clone(), id);
+            let t0 = w.clear_time();
+            let existed = w.sec_exists[*sec];
+            let (rq, sn) = (w.idents[*req].clone(), w.sec_names[*sec].clone());
+            let out = if *rotate { w.vault.rotate(&rq, &sn, &val) } else { w.vault.set(&rq, &sn, &val) };
+            let imp = res(w, out.map(|()| "ok".to_string()));
+            let tag = if *rotate { "rotate" } else { "set" };
+            let line = format!("{tag} {t0} {req} {} {id} {}", w.sec_ids[*sec], val.len());
+            rep.hit(&format!("exact_size.{tag}.{bytes}"));
+            let imp = finish!(tag, line.clone(), imp, t0);
+            if imp == "ok" {
+                if *rotate {
+                    w.check_access(rep, "rotate", *req, *sec, 2, t0, &line);
+                } else {
+                    w.after_write_ok(rep, "set", *req, *sec, existed, t0, &line);
+                }
+            }
+        }
         Op::RawEdge { a, b, ty, cap, sig, undirected } => {
             let from = w.node_id(&w.idents[*a]);
             let Some(to) = w.nd_node(*b) else { return true };
@@ -926,6 +1203,7 @@ fn exec(w: &mut World, m: &mut Model, rep: &mut Report, r: &mut Rng, stream: &st
                 }
                 _ => {}
             }
+            let t0 = w.clear_time();
             match w.graph.create_edge(from, to, *ty, props, !*undirected) {
                 Ok(id) => {
                     if is_memberish(ty) {
@@ -942,7 +1220,6 @@ fn exec(w: &mut World, m: &mut Model, rep: &mut Report, r: &mut Rng, stream: &st
                     rep.hit(&format!("rawedge.type.{ty}"));
                     rep.hit(&format!("rawedge.sig_class{sig}"));
                     rep.hit(if *undirected { "rawedge.undirected" } else { "rawedge.directed" });
-                    let t0 = w.now();
                     let _ = finish!("rawedge", line, "ok".to_string(), t0);
                 }
                 Err(e) => rep.note(&format!("create_edge {ty} failed: {e}")),
@@ -997,22 +1274,67 @@ fn gen_op(w: &World, r: &mut Rng) -> Op {
         }
     };
     match r.below(100) {
-        0..=21 => {
+        0..=16 => {
             if let (true, Some((e, s))) = (r.chance(1, 2), holder(r, 1)) {
                 Op::Get { req: e, sec: s }
             } else {
                 Op::Get { req: requester(r), sec: sec(r) }
             }
         }
-        22..=29 => Op::List { req: requester(r), pat: r.below(4) as u8, arg: sec(r) },
-        30..=40 => {
+        17..=21 => {
+            // the other read / overwrite paths: old versions, version count, rollback
+            let (rq, sx) = match (r.chance(2, 3), holder(r, 1)) {
+                (true, Some(x)) => x,
+                _ => (requester(r), sec(r)),
+            };
+            let ver = *r.pick(&[0u32, 1, 1, 2, 2, 3, 4, 7]);
+            match r.below(5) {
+                0 | 1 => Op::GetVersion { req: rq, sec: sx, ver },
+                2 => Op::Versions { req: rq, sec: sx, via_list: r.chance(1, 2) },
+                _ => Op::Rollback { req: rq, sec: sx, ver },
+            }
+        }
+        22..=29 => Op::List { req: requester(r), pat: r.below(4) as u8, arg: sec(r), via: *r.pick(&[0u8, 0, 1, 2]) },
+        30..=37 => {
             if let (true, Some((e, s))) = (r.chance(2, 3), holder(r, 1)) {
                 Op::Set { req: e, sec: s, big: r.chance(1, 12) }
             } else {
                 Op::Set { req: requester(r), sec: sec(r), big: r.chance(1, 12) }
             }
         }
-        41..=48 => {
+        38..=40 => {
+            // batch calls over 0-4 DISTINCT secrets (existing and not), by a holder or anybody
+            let (rq, s0) = match (r.chance(1, 2), holder(r, 1)) {
+                (true, Some(x)) => x,
+                _ => (requester(r), sec(r)),
+            };
+            let mut secs = vec![s0];
+            for _ in 0..r.below(4) {
+                let sx = if r.chance(1, 4) { r.below(nsec as u64) as usize } else { sec(r) };
+                if !secs.contains(&sx) {
+                    secs.push(sx);
+                }
+            }
+            if r.chance(1, 15) {
+                secs.clear();
+            }
+            if r.chance(1, 2) {
+                Op::BatchGet { req: rq, secs }
+            } else {
+                let big = secs.iter().map(|_| r.chance(1, 10)).collect();
+                Op::BatchSet { req: rq, secs, big, plain_api: r.chance(1, 2) }
+            }
+        }
+        41..=42 => {
+            if !w.tokens.is_empty() && r.chance(1, 2) {
+                Op::Unwrap { tok: r.below(w.tokens.len() as u64 + 1) as usize }
+            } else if let (true, Some((e, s))) = (r.chance(2, 3), holder(r, 1)) {
+                Op::Wrap { req: e, sec: s }
+            } else {
+                Op::Wrap { req: requester(r), sec: sec(r) }
+            }
+        }
+        43..=48 => {
             if let (true, Some((e, s))) = (r.chance(2, 3), holder(r, 1)) {
                 Op::Rotate { req: e, sec: s, big: r.chance(1, 20) }
             } else {
@@ -1079,11 +1401,18 @@ fn gen_op(w: &World, r: &mut Rng) -> Op {
             Op::Delegate { parent, child, secs, level: 1 + r.below(3) as u8, ttl_ms: if r.chance(1, 3) { Some(6 + r.below(40)) } else { None } }
         }
         83..=84 => {
-            if !w.delegs.is_empty() && r.chance(4, 5) {
+            let cascade = r.chance(2, 5);
+            let (p, c) = if !w.delegs.is_empty() && r.chance(4, 5) {
                 let (p, c, _) = r.pick(&w.delegs).clone();
-                Op::Undelegate { parent: p, child: c }
+                // a cascade may also start at a node that has no direct record from `p`
+                if cascade && r.chance(1, 4) { (requester(r), c) } else { (p, c) }
             } else {
-                Op::Undelegate { parent: requester(r), child: 1 + r.below(w.n_users as u64) as usize }
+                (requester(r), 1 + r.below(w.n_users as u64) as usize)
+            };
+            if cascade {
+                Op::UndelegateCascade { parent: p, child: c }
+            } else {
+                Op::Undelegate { parent: p, child: c }
             }
         }
         85..=90 => {
@@ -1115,6 +1444,7 @@ fn gen_op(w: &World, r: &mut Rng) -> Op {
                 }
             }
         }
+        94 => Op::Reopen,
         _ => Op::Sleep { ms: 2 + r.below(25) },
     }
 }
@@ -1158,7 +1488,7 @@ fn directed(m: &mut Model, rep: &mut Report, root: &Rng, seen: &mut BTreeSet<Str
                 Op::Get { req: 1, sec: 0 },
                 Op::Sleep { ms: 30 },
                 Op::Get { req: 1, sec: 0 },
-                Op::List { req: 1, pat: 0, arg: 0 },
+                Op::List { req: 1, pat: 0, arg: 0, via: 0 },
             ],
         ),
         (
@@ -1267,10 +1597,173 @@ fn directed(m: &mut Model, rep: &mut Report, root: &Rng, seen: &mut BTreeSet<Str
                 Op::Delete { req: 1, sec: 2 },
             ],
         ),
+        (
+            // the TTL tracker and the delegation records survive dropping the Vault object: grants still expire,
+            // nothing expired comes back, delegations can still be revoked
+            "reopen-keeps-expiry",
+            vec![
+                Op::Set { req: 0, sec: 0, big: false },
+                Op::Set { req: 0, sec: 1, big: false },
+                Op::GrantTtl { req: 0, ent: 1, sec: 0, level: 1, ttl_ms: 40 },
+                Op::Delegate { parent: 0, child: 2, secs: vec![0, 1], level: 2, ttl_ms: Some(40) },
+                Op::Grant { req: 0, ent: 3, sec: 1, level: 3, plain_api: true },
+                Op::Delegate { parent: 3, child: 1, secs: vec![1], level: 1, ttl_ms: None },
+                Op::Reopen,
+                Op::Get { req: 1, sec: 0 },
+                Op::Set { req: 2, sec: 1, big: false },
+                Op::Get { req: 1, sec: 1 },
+                Op::Sleep { ms: 60 },
+                Op::Set { req: 2, sec: 0, big: false },
+                Op::Get { req: 1, sec: 0 },
+                Op::Get { req: 1, sec: 1 },
+                Op::Undelegate { parent: 3, child: 1 },
+                Op::Get { req: 1, sec: 1 },
+                Op::GrantTtl { req: 0, ent: 1, sec: 0, level: 3, ttl_ms: 15 },
+                Op::GrantTtl { req: 3, ent: 2, sec: 1, level: 2, ttl_ms: 15 },
+                Op::Sleep { ms: 30 },
+                Op::Reopen,
+                Op::Grant { req: 1, ent: 2, sec: 0, level: 1, plain_api: false },
+                Op::Rotate { req: 2, sec: 1, big: false },
+                Op::List { req: 1, pat: 0, arg: 0, via: 1 },
+                Op::List { req: 2, pat: 0, arg: 0, via: 2 },
+            ],
+        ),
+        (
+            // two TTL grants to one pair: the second tracker entry expires with no edge left, is dropped from memory
+            // only (no persist), comes back at re-open and then takes a later permanent grant with it (fail-closed quirk
+            // the model mirrors through the persisted copy of the tracker)
+            "reopen-stale-tracker-entry",
+            vec![
+                Op::Set { req: 0, sec: 0, big: false },
+                Op::GrantTtl { req: 0, ent: 1, sec: 0, level: 1, ttl_ms: 12 },
+                Op::GrantTtl { req: 0, ent: 1, sec: 0, level: 2, ttl_ms: 30 },
+                Op::Sleep { ms: 20 },
+                Op::Get { req: 1, sec: 0 },
+                Op::Sleep { ms: 25 },
+                Op::Get { req: 1, sec: 0 },
+                Op::Grant { req: 0, ent: 1, sec: 0, level: 2, plain_api: false },
+                Op::Get { req: 1, sec: 0 },
+                Op::Reopen,
+                Op::Get { req: 1, sec: 0 },
+                Op::Set { req: 1, sec: 0, big: false },
+            ],
+        ),
+        (
+            "old-versions-rollback",
+            vec![
+                Op::Set { req: 0, sec: 0, big: false },
+                Op::Set { req: 0, sec: 0, big: false },
+                Op::Rotate { req: 0, sec: 0, big: false },
+                Op::Set { req: 0, sec: 0, big: false },
+                Op::Grant { req: 0, ent: 1, sec: 0, level: 1, plain_api: false },
+                Op::GetVersion { req: 1, sec: 0, ver: 1 },
+                Op::GetVersion { req: 1, sec: 0, ver: 0 },
+                Op::GetVersion { req: 1, sec: 0, ver: 3 },
+                Op::GetVersion { req: 1, sec: 0, ver: 4 },
+                Op::GetVersion { req: 2, sec: 0, ver: 1 },
+                Op::GetVersion { req: 0, sec: 2, ver: 1 },
+                Op::Versions { req: 1, sec: 0, via_list: false },
+                Op::Versions { req: 1, sec: 0, via_list: true },
+                Op::Versions { req: 2, sec: 0, via_list: true },
+                Op::Rollback { req: 1, sec: 0, ver: 1 },
+                Op::Rollback { req: 2, sec: 0, ver: 1 },
+                Op::GrantTtl { req: 0, ent: 2, sec: 0, level: 2, ttl_ms: 15 },
+                Op::Rollback { req: 2, sec: 0, ver: 2 },
+                Op::Get { req: 1, sec: 0 },
+                Op::Sleep { ms: 30 },
+                Op::Rollback { req: 2, sec: 0, ver: 1 },
+                Op::GetVersion { req: 2, sec: 0, ver: 1 },
+                Op::Versions { req: 2, sec: 0, via_list: false },
+                Op::Wrap { req: 2, sec: 0 },
+                Op::BatchGet { req: 2, secs: vec![0] },
+                Op::BatchSet { req: 2, secs: vec![0], big: vec![false], plain_api: false },
+                Op::Rollback { req: 0, sec: 0, ver: 9 },
+                Op::Rollback { req: 0, sec: 0, ver: 1 },
+                Op::Get { req: 1, sec: 0 },
+            ],
+        ),
+        (
+            "batch-and-wrap",
+            vec![
+                Op::Set { req: 0, sec: 0, big: false },
+                Op::Set { req: 0, sec: 1, big: false },
+                Op::Grant { req: 0, ent: 1, sec: 0, level: 2, plain_api: false },
+                Op::Grant { req: 0, ent: 1, sec: 1, level: 1, plain_api: false },
+                Op::BatchGet { req: 1, secs: vec![0, 1, 2] },
+                Op::BatchGet { req: 2, secs: vec![0, 1] },
+                Op::BatchGet { req: 0, secs: vec![2, 0] },
+                Op::BatchGet { req: 1, secs: vec![] },
+                Op::BatchSet { req: 1, secs: vec![0, 1, 2], big: vec![false, false, false], plain_api: false },
+                Op::BatchSet { req: 1, secs: vec![0], big: vec![true], plain_api: true },
+                Op::BatchSet { req: 1, secs: vec![1], big: vec![false], plain_api: true },
+                Op::BatchSet { req: 1, secs: vec![0], big: vec![false], plain_api: true },
+                Op::BatchSet { req: 0, secs: vec![2, 1], big: vec![false, true], plain_api: false },
+                Op::BatchSet { req: 2, secs: vec![], big: vec![], plain_api: false },
+                Op::Get { req: 1, sec: 0 },
+                Op::Wrap { req: 1, sec: 1 },
+                Op::Wrap { req: 2, sec: 1 },
+                Op::Wrap { req: 0, sec: 0 },
+                Op::Unwrap { tok: 0 },
+                Op::Unwrap { tok: 0 },
+                Op::Unwrap { tok: 5 },
+                Op::Revoke { req: 0, ent: 1, sec: 1 },
+                Op::Wrap { req: 1, sec: 1 },
+                Op::BatchGet { req: 1, secs: vec![1, 0] },
+                Op::Unwrap { tok: 1 },
+            ],
+        ),
+        (
+            "cascading-revocation",
+            vec![
+                Op::Set { req: 0, sec: 0, big: false },
+                Op::Set { req: 0, sec: 1, big: false },
+                Op::Delegate { parent: 0, child: 1, secs: vec![0, 1], level: 3, ttl_ms: None },
+                Op::Delegate { parent: 1, child: 2, secs: vec![0], level: 2, ttl_ms: None },
+                Op::Delegate { parent: 2, child: 3, secs: vec![0], level: 1, ttl_ms: Some(600_000) },
+                Op::Get { req: 3, sec: 0 },
+                Op::UndelegateCascade { parent: 1, child: 2 },
+                Op::Get { req: 3, sec: 0 },
+                Op::Get { req: 2, sec: 0 },
+                Op::Get { req: 1, sec: 0 },
+                Op::Delegate { parent: 1, child: 2, secs: vec![1], level: 1, ttl_ms: None },
+                Op::Delegate { parent: 2, child: 3, secs: vec![1], level: 1, ttl_ms: None },
+                Op::UndelegateCascade { parent: 2, child: 1 },
+                Op::Get { req: 3, sec: 1 },
+                Op::UndelegateCascade { parent: 0, child: 1 },
+                Op::Get { req: 1, sec: 1 },
+                Op::Get { req: 2, sec: 1 },
+                Op::Get { req: 3, sec: 1 },
+                Op::UndelegateCascade { parent: 0, child: 1 },
+            ],
+        ),
+        (
+            // exact byte lengths around the two limits (max_value_size = 96 here; rotate only knows MAX_PLAINTEXT_SIZE)
+            "size-boundary",
+            vec![
+                Op::SetExact { req: 0, sec: 0, bytes: 96, rotate: false },
+                Op::SetExact { req: 0, sec: 0, bytes: 97, rotate: false },
+                Op::SetExact { req: 0, sec: 0, bytes: 1, rotate: false },
+                Op::SetExact { req: 0, sec: 1, bytes: 97, rotate: false },
+                Op::SetExact { req: 0, sec: 0, bytes: 97, rotate: true },
+                Op::Rollback { req: 0, sec: 0, ver: 3 },
+                Op::Rollback { req: 0, sec: 0, ver: 2 },
+                Op::Get { req: 0, sec: 0 },
+            ],
+        ),
+        (
+            "size-boundary-default",
+            vec![
+                Op::SetExact { req: 0, sec: 0, bytes: 65_531, rotate: false },
+                Op::SetExact { req: 0, sec: 0, bytes: 65_532, rotate: false },
+                Op::SetExact { req: 0, sec: 0, bytes: 65_531, rotate: true },
+                Op::SetExact { req: 0, sec: 0, bytes: 65_532, rotate: true },
+                Op::Get { req: 0, sec: 0 },
+            ],
+        ),
     ];
     for (name, ops) in scenarios {
         let mut r = root.fork(name);
-        let mvs = if name == "size-limit-default" || name == "names-at-rest-known" { 65_531 } else { 96 };
+        let mvs = if name == "size-limit-default" || name == "names-at-rest-known" || name == "size-boundary-default" { 65_531 } else { 96 };
         let mut w = World::new(&mut r, m, Pol { admin_limit: 1, write_limit: 2, horizon: 10 }, 3, mvs, 3, 3, 3);
         if name == "names-at-rest-known" {
             // names long enough for the plaintext scan whatever the seed (namespace prefix kept)
@@ -1427,7 +1920,9 @@ fn main() {
         "rotate.ok", "rotate.err_denied", "rotate.err_insufficient", "rotate.err_crypto", "delete.ok", "delete.err_denied", "delete.err_insufficient", "delete.err_not_found",
         "grant.ok", "grant.err_denied", "grant.err_insufficient", "grant.err_not_found", "grantttl.ok", "grantttl.err_denied", "revoke.ok", "revoke.err_denied",
         "revoke.err_insufficient", "delegate.ok", "delegate.err_denied", "delegate.err_insufficient", "delegate.err_graph", "undelegate.ok", "undelegate.err_not_found",
-        "list.ok", "addmember.ok", "delmember.ok", "rawedge.ok", "rawedge.undirected", "rawedge.directed", "rawedge.sig_class0", "rawedge.sig_class1",
+        "list.ok", "list.via0", "list.via1", "list.via2", "getver.ok", "getver.err_denied", "getver.err_not_found", "vercount.ok", "vercount.err_denied", "rollback.ok", "rollback.err_denied",
+        "rollback.err_insufficient", "rollback.err_not_found", "rollback.err_too_large", "batchget.ok", "batchget.entry_ok", "batchset.ok", "batchset.entry_ok", "batchset.via_batch_set", "wrap.ok", "wrap.err_denied", "unwrap.ok",
+        "unwrap.err_not_found", "undelegatec.ok", "undelegatec.records_revoked", "reopen.ok", "addmember.ok", "delmember.ok", "rawedge.ok", "rawedge.undirected", "rawedge.directed", "rawedge.sig_class0", "rawedge.sig_class1",
         "rawedge.sig_class2", "rawedge.sig_class3", "rawedge.sig_class4", "rawedge.type.OWNS", "rawedge.type.MEMBER_OF", "rawedge.type.VAULT_ACCESSX_ADMIN", "rawedge.type.VAULT_ACCESS", "rawedge.type.VAULT_ACCESS_FOO", "perm.answer.none", "perm.answer.1", "perm.answer.2", "perm.answer.3",
     ]
     .iter()
